@@ -731,7 +731,7 @@ theorem step_declareItems (s : Nat) :
     | imports ps =>
       unfold declareItems at h
       exact ih g g' inv hs h
-    | sigProbe id p =>
+    | sigProbe id k p =>
       unfold declareItems at h
       exact ih g g' inv hs h
 
@@ -891,7 +891,7 @@ theorem step_checkItems (s : Nat) :
       have s0 : Step st.g (st.g.wrap s (.function n)).1 :=
         step_wrap_other inv s _ hs (by intro a b hc; cases hc)
       exact step_trans s0 (ih _ st' s0.1 (Nat.lt_of_lt_of_le hs s0.2.1) h)
-    | sigProbe id p =>
+    | sigProbe id k p =>
       unfold checkItems at h
       simp only at h
       have s0 : Step st.g (st.g.wrap s (.function (1000 + id))).1 :=
